@@ -152,6 +152,11 @@ def run_case(case, ctx):
             (root / "side.py").write_text("# SPDX-FileCopyrightText: 2012 Side\n# SPDX-License-Identifier: CC0-1.0\n")
             (root / "side.py.license").mkdir()
             res.cell("extra:sidecar-is-a-directory")
+        if case["k"] % 4 == 3:
+            # two names that differ in Unicode normalisation form only: two files, each with its own problems
+            (root / "caf\u00e9.py").write_text("no information at all\n")
+            (root / "cafe\u0301.py").write_text("# SPDX-FileCopyrightText: 2013 Decomposed\n")
+            res.cell("extra:nfc-and-nfd-twin-names")
         ign = []
         if recipe.get("git"):
             # files the work tree ignores: no covered files, for lint and for lint-file alike, even when named one by one
